@@ -285,7 +285,7 @@ class timemodel(_coreiterative):
             mindtloc = min(dtloc) # mindtloc = dtloc
             Qnn = self.Qn.copy()
             if isave < nsave: # specific step to save result and go back to Qn
-                if self.Qn.time+mindtloc >= tsave[isave]:
+                while isave < nsave and self.Qn.time+mindtloc >= tsave[isave]: # all save times within this step
                     # compute smaller step with same integrator
                     if tsave[isave] > self.Qn.time: # a save time equal to the current time is the current state
                         self.step(Qnn, tsave[isave]-self.Qn.time)
